@@ -14,7 +14,7 @@ import os
 ID = "C12"
 LEVEL = "exploration"
 RULE = (
-    "alphabet of 53 requests (25 fixed incl. 100x100 / 144x100 grids + a base request with 21 one-argument-at-a-time variants and six single-precision twins of them covering every argument of the solver signature; incl. integer / list / numpy-integer / ndarray spellings and Fortran-ordered / transposed / strided source layouts of five requests, footprint/dispersion twins on identical geometry and same-shape different-physics pairs) (shapes 9x7 .. 48x40, odd sizes, truncated / over-requested modes, single and double precision, footprint and "
+    "alphabet of 55 requests (27 fixed incl. 100x100 / 144x100 grids + a base request with 21 one-argument-at-a-time variants and six single-precision twins of them covering every argument of the solver signature; incl. integer / list / numpy-integer / ndarray spellings and Fortran-ordered / transposed / strided source layouts of five requests, footprint/dispersion twins on identical geometry and same-shape different-physics pairs) (shapes 9x7 .. 48x40, odd sizes, truncated / over-requested modes, single and double precision, footprint and "
     "dispersion, default / zero / explicit halo, analytic, multi-level); histories of 60 operations drawn from {solve, set NUM_THREADS in "
     "1..8, reset_fft_manager, get_fft_manager(k), fftw_wisdom.pkl dropped / truncated / garbage / foreign, allocation noise}; 16 "
     "history runners execute concurrently (loaded machine).  non-trivial = a solve preceded by a different request, a thread change or a "
@@ -90,6 +90,13 @@ def requests():
     R["r23"] = dict(srf_flx=rng.normal(size=(100, 144)), z=zc, profiles=(2.0 * one, 1.0 * one, 0.8 * one, 0.5 * one, 0.6 * one),
                     domain=(1440.0, 900.0), levels=[4, 8], modes=(144, 100), halo=0.0, precision="double", analytic=True, srf_bg_conc=0.4)
     R["r24"] = dict(R["r23"], analytic=False)
+    # a fine grid under a tall tower (cell 1 m, tower 10 m, default halo: the highest retained components decay by about e^-15 up to the tower height): the solution
+    # itself carries rounding noise there, but it is the SAME deterministic noise in every repeat, and single precision still only
+    # rounds the stored spectra
+    z25, p25 = col(16, 10.0, (5.0, 1.0), ustar=0.4, mol=1e9, closure="MOST")
+    R["r25"] = dict(srf_flx=np.zeros((48, 64)), z=z25, profiles=p25, domain=(64.0, 48.0), levels=16, modes=(96, 80), halo=None, precision="double",
+                    footprint=True, meas_pt=(44.0, 24.0))
+    R["r26"] = dict(R["r25"], precision="single")
     # one-argument-at-a-time family: a small base request and, for every argument of the solver signature, a request that
     # differs from the base in that argument only (state memoised on any proper subset of the arguments mixes one of these pairs)
     nzv = 7
@@ -127,7 +134,7 @@ def requests():
     return R
 
 
-PAIRS = {"r1": "r0", "r3": "r2", "r9": "r8", "v_single": "v0"}  # single -> its double counterpart
+PAIRS = {"r1": "r0", "r3": "r2", "r9": "r8", "v_single": "v0", "r26": "r25"}  # single -> its double counterpart
 TWINS = {"r11": "r2", "r12": "r5", "r13": "r0", "r14": "r4", "r10": "r0", "r15": "r4", "r16": "r5", "r17": "r0", "r18": "r8", "r19": "r4", "r20": "r14", "r21": "r2"}
 VARIANTS = ["v_flxvals", "v_flxshape", "v_z", "v_u", "v_v", "v_kx", "v_ky", "v_kz", "v_domain_scaled", "v_domain_swapped", "v_levels_order",
             "v_levels_other", "v_levels_scalar", "v_modes", "v_halo", "v_halo_none", "v_measpt", "v_bg", "v_analytic", "v_footprint", "v_single"]
@@ -270,9 +277,22 @@ def run_case(case):
         pool.append(SAME_VALUES[pool[-1]])
         for nm_ in pool[-2:]:
             need(nm_)
+    # adjacency stage (pushed once, two thirds into the history): ordered pairs (A, B) of the pool solved back to back with nothing in
+    # between, pairs that differ in precision / analytic / footprint three times as likely - state left by A and picked up by B shows
+    # in B, which is compared like every other solve
+    plan = [(a_, b_) for a_ in pool for b_ in pool if a_ != b_]
+    wts = np.array([3.0 if any(R[a_].get(k_, d_) != R[b_].get(k_, d_) for k_, d_ in (("precision", "single"), ("analytic", False), ("footprint", False)))
+                    else 1.0 for a_, b_ in plan])
+    pick_ = rng.choice(len(plan), size=min(14, len(plan)), replace=False, p=wts / wts.sum())
+    adjacency = [plan[i_] for i_ in pick_]
     step = 0
     while step < 60 or pending:
         step += 1
+        if step == 40 and adjacency:
+            for a_, b_ in adjacency:
+                pending += [("solve", a_), ("solve", b_)]
+            counters["adjacent_ordered_pairs"] = len(adjacency)
+            adjacency = []
         forced = None
         if pending:
             op, forced = pending.pop(0)
